@@ -17,6 +17,7 @@ def main():
     shard = json.load(open(inpath))
     mod = importlib.import_module('vf.props.' + prop)
     rec = Recorder(prop, shard)
+    rec.keymap = getattr(mod, 'KEYMAP', None)
     try:
         if 'replay' in shard:
             mod.replay(shard['replay'], rec)
